@@ -139,17 +139,18 @@ def run(ctx):
     namef = mod.func('squared_property.__set_name__')
     rets = [r for r in walk_no_nested(getf) if isinstance(r, ast.Return)]
     get_ok = any(isinstance(r.value, ast.BinOp) and isinstance(r.value.op, ast.Pow)
-                 and norm(r.value.right) == '2' and norm(r.value.left).startswith('getattr(instance, self.')
+                 and norm(r.value.right) == '2' and norm(r.value.left).startswith('getattr(%s, self.' % getf.args.args[1].arg)
                  for r in rets) or any(
         isinstance(r.value, ast.BinOp) and isinstance(r.value.op, ast.Mult)
         and norm(r.value.left) == norm(r.value.right)
-        and norm(r.value.left).startswith('getattr(instance, self.') for r in rets)
+        and norm(r.value.left).startswith('getattr(%s, self.' % getf.args.args[1].arg) for r in rets)
     ctx.ob('C18.R3', 'squared:get-is-plain-squared', get_ok,
            'squared_property.__get__ returns (plain attribute) ** 2, computed at read time',
            mod, getf)
     sets = [c for c in calls_in(setf) if call_name(c) == 'setattr']
     set_ok = len(sets) == 1 and len(sets[0].args) == 3 and \
-        norm(sets[0].args[2]).replace(' ', '') in ('value**0.5', 'math.sqrt(value)')
+        norm(sets[0].args[2]).replace(' ', '') in ('%s**0.5' % setf.args.args[2].arg,
+                                                  'math.sqrt(%s)' % setf.args.args[2].arg)
     ctx.ob('C18.R3', 'squared:set-writes-root', set_ok,
            'squared_property.__set__ stores the square root into the plain attribute', mod, setf)
     name_ok = any(isinstance(n, ast.Assign) and '_squared' in norm(n.value)
